@@ -29,7 +29,7 @@ def one(d):
         out, details = [], []
         for pid in sorted(properties.CHECKS):
             try:
-                res = properties.CHECKS[pid]('quick', tmp)
+                res = properties.run(pid, 'quick', tmp)
             except frontend.AnalysisIncomplete as e:
                 out.append('(%s:incomplete)' % pid)
                 details.append((pid, 'INCOMPLETE', str(e)[:300]))
